@@ -200,6 +200,9 @@ func TestC13(t *testing.T) {
 				if o0 != 0 && rapid.Bool().Draw(t, "zerooffset") {
 					o2 = 0
 				}
+				if math.Abs(o2-o0) <= 1e-6*math.Max(1, math.Max(math.Abs(o0), math.Abs(o2))) {
+					o2 = o0 + 1 // a tiny (engineered) offset against 0 is within the tolerance of Equals: not a mismatch
+				}
 				ospec = gen.MapSpec{Kind: gen.KindOf(c.m), Gamma: g0, Offset: o2}
 				cl.label("mismatch:offset")
 			default:
